@@ -760,7 +760,7 @@ func classifyRace(text string) raceReport {
 		for _, fn := range st {
 			isLib := strings.HasPrefix(fn, "github.com/Breeze0806/gobinlog")
 			isDrv := strings.HasPrefix(fn, "github.com/Breeze0806/mysql")
-			isH := strings.HasPrefix(fn, "verifharness/")
+			isH := strings.HasPrefix(fn, "verifharness/") && !strings.HasPrefix(fn, "verifharness/xport.") // the transport wrapper is a pass-through
 			if top == "" && (isLib || isDrv || isH) {
 				top = fn
 				only = isH
@@ -803,9 +803,24 @@ func classifyRace(text string) raceReport {
 	return r
 }
 
+var (
+	deferwrapRe = regexp.MustCompile(`^.*\.deferwrap\d+\.`)
+	closureRe   = regexp.MustCompile(`(\.func\d+|\.\d+|\.gowrap\d+)+$`)
+)
+
+// short normalises a function name so that keys survive inlining and closure
+// numbering: package-relative, defer wrappers and closure suffixes removed.
 func short(fn string) string {
 	fn = strings.TrimPrefix(fn, "github.com/Breeze0806/")
-	return strings.ReplaceAll(fn, " ", "")
+	fn = strings.ReplaceAll(fn, " ", "")
+	if m := deferwrapRe.FindString(fn); m != "" {
+		pkg := ""
+		if i := strings.IndexByte(fn, '.'); i > 0 {
+			pkg = fn[:i+1]
+		}
+		fn = pkg + fn[len(m):]
+	}
+	return closureRe.ReplaceAllString(fn, "")
 }
 
 // raceDisposition decides what a race report means for the property whose
